@@ -346,6 +346,13 @@ def directed_scripts(variant):
             "cfg grace=1 soft=8 hard=8 tcap=8", "sink 0 lvl=0", "logger 0 sinks=0 lvl=0", "start", "T 1 start", "T 2 start",
             "L 1 0 4 10", "L 2 0 4 10", "K 1000000", "P", "P", "P", "QC 1", "SH 1 256", "L 1 0 4 700", "K 1", "L 2 0 4 10",
             "K 1000000", "P", "P", "P", "P", "Q", "X"]))
+    # C20 (unbounded builds): the queue grows to the maximum, is drained, shrunk on request; the statements that follow need a
+    # larger buffer again, which is far below the maximum — none of them may be dropped / block
+    if variant >= 2:
+        out.append(("dir_regrow_after_shrink", [
+            "cfg grace=0 soft=4 hard=8 tcap=2", "sink 0 lvl=0", "logger 0 sinks=0 lvl=0", "start", "T 1 start"] +
+            ["L 1 0 4 900"] * 4 + ["QC 1", "K 1000000"] + ["P"] * 6 + ["QC 1", "SH 1 512"] + ["L 1 0 4 300"] * 4 +
+            ["QC 1", "K 1000000", "P", "R 1", "P", "R 1", "P", "P", "P", "Q", "X"]))
     # unbounded builds: a thread that ran into the maximum capacity (its failure counter is bumped, and nothing ever reports
     # or resets it for an unbounded queue) and then exits must still be reclaimed — the "unreported counter keeps the
     # context" rule of the F24 repair is for bounded queues only
@@ -553,6 +560,7 @@ def oracles(lines):
     last_write_idx = {}  # id -> index in write_order
     loggers_sinks = {g: list(d["sinks"]) for g, d in rec["loggers"].items()}
     last_cap = {}
+    shrunk = {}         # actor -> dict(cap, used): its shrink request took effect and everything it enqueued since fits the new buffer
     unknown_outcomes = [0]
     # ---- C06 liveness (F34): a flush_log caller parked across polls that process nothing although older ripe statements wait
     f34_wait = {}       # actor -> clock value of its flush_log call while it is parked in it
@@ -574,10 +582,14 @@ def oracles(lines):
             return
         if op not in ("QC", "SH") and len(w) > 1 and w[1].isdigit():
             last_cap.pop(int(w[1]), None)   # any other call of that thread may have grown its queue since the capacity was read
+        if op not in ("QC", "SH", "L") and len(w) > 1 and w[1].isdigit():
+            shrunk.pop(int(w[1]), None)     # a call whose size is not known here
         if op == "QC":
             m = re.match(r"cap=(\d+)", res)
             if m:
                 last_cap[int(w[1])] = int(m.group(1))
+                if shrunk.get(int(w[1]), {}).get("cap") != int(m.group(1)):
+                    shrunk.pop(int(w[1]), None)
             return
         if op == "SH":
             m = re.match(r"cap=(\d+)", res)
@@ -590,6 +602,10 @@ def oracles(lines):
                 expect = p2 if want <= before // 2 else before
                 if after != expect:
                     viol.append(("C20", "shrink request of actor %d to %d with capacity %d: capacity reported afterwards %d, expected %d" % (a, want, before, after, expect)))
+                if after < before:
+                    shrunk[a] = dict(cap=after, used=0)    # it took effect: the thread now writes to a fresh buffer of `after` bytes
+            else:
+                shrunk.pop(a, None)
             return
         if op in ("L", "LS", "LB", "LN", "LU"):
             m = re.match(r"id=(\d+)", res)
@@ -604,6 +620,21 @@ def oracles(lines):
             st = stmts.setdefault(i, dict(actor=a, g=g, lvl=lvl, ts=t_now, enq=None, ret=None, op=op, sinks=list(loggers_sinks.get(g, [])),
                                           h0={s: len(h) for s, h in sink_hist.items()},
                                           inj_poll=f34_cur["poll"], inj_site=f34_cur["site"]))
+            # C20 "shrinking … without losing statements": the shrunk buffer still has its reported capacity c (the thread has put
+            # no more than c bytes into it, so nothing made it grow), a buffer of 2c is within the configured maximum and takes
+            # this statement — a refusal (drop / block) now is a statement lost to the shrink request
+            sh = shrunk.get(a) if op == "L" and len(w) > 4 else None
+            mb = re.search(r"ret=1 .*bytes=(\d+)", res)
+            if sh and ("parked" in res or "ret=0" in res) and "threw" not in res and 2 * sh["cap"] <= cfg.get("qmax", 0) \
+                    and int(w[4]) + 64 <= 2 * sh["cap"]:
+                viol.append(("C20", "after the shrink request of actor %d took effect (capacity reported %d, %d bytes enqueued since) its statement "
+                             "id=%d of %s+~40 bytes was %s although a buffer of %d bytes is within the configured maximum %d and would take it: "
+                             "shrinking the queue made it refuse (lose) statements" % (
+                                 a, sh["cap"], sh["used"], i, w[4], "blocked" if "parked" in res else "dropped", 2 * sh["cap"], cfg.get("qmax", 0))))
+            if sh and mb and sh["used"] + int(mb.group(1)) <= sh["cap"]:
+                sh["used"] += int(mb.group(1))
+            else:
+                shrunk.pop(a, None)
             if "parked" in res:
                 pending_by_actor[a] = i
                 park_mark[a] = (idle["epoch"], idle["streak"])
